@@ -305,6 +305,7 @@ func cmdRun(args []string) int {
 	budget := fs.Int("budget", 300, "")
 	params := fs.String("params", "", "k=v,k=v")
 	solverName := fs.String("solver", "", "z3 (default) or cvc5")
+	trailArg := fs.String("trail", "", "replay exactly one path: comma separated decisions")
 	if len(args) < 3 {
 		fmt.Println("usage: gosym run <pkgdir> <harnessfile[,file]> <entry> [flags]")
 		return 2
@@ -343,6 +344,16 @@ func cmdRun(args []string) int {
 	}
 	cfg := &RunConfig{Harness: entryName, PkgDir: pkgDir, Preempt: *preempt, EnvEvents: *env, AllMapOrders: *orders, Race: *race,
 		StepBound: 3_000_000, Params: pm, MaxPaths: 50_000_000, Solver: *solverName}
+	if *trailArg != "" {
+		var tr []int
+		for _, x := range strings.Split(strings.Trim(*trailArg, "[]"), ",") {
+			var v int
+			fmt.Sscan(strings.TrimSpace(x), &v)
+			tr = append(tr, v)
+		}
+		cfg.OneTrail = tr
+		*workers = 1
+	}
 	res := runHarness(l.prog, entry, cfg, handlers, known, *workers, time.Duration(*budget)*time.Second)
 	b, _ := json.MarshalIndent(res.Stats, "", " ")
 	fmt.Println(string(b))
@@ -353,7 +364,7 @@ func cmdRun(args []string) int {
 	for _, v := range res.Violations {
 		vb, _ := json.Marshal(v)
 		s := string(vb)
-		if len(s) > 3000 {
+		if len(s) > 3000 && *trailArg == "" {
 			s = s[:3000]
 		}
 		fmt.Println("VIOLATION:", s)
